@@ -307,6 +307,26 @@ def monitor(tr, case):
         add(check_min_needs(eaten, got, float(ir1.percent_people_fed), float(T), KD, "round1->round2 minimum needs"), "min_needs")
         obs["audited"] += 1
         obs["handoffs"].append({"what": "min_needs", "p1": float(ir1.percent_people_fed), "T": float(T), "pinned_sum_month0": float(sum(got[f][0] for f in ORDER))})
+        # ... and what the feed-maximising round actually holds people to: in its solved model each pinned food's human consumption
+        # is the handed minimum of that food and month (the code's own band is 1e-4 relative)
+        la = next((lp for lp in tr.lps if lp.kind == "to_animals"), None)
+        if la is not None:
+            conv = 30.0 * float(ci["POP"]) / 1e9
+            npin = 0
+            for f, var, kk in (("outdoor_crops", "crops_food_to_humans", 1.0), ("stored_food", "stored_food_to_humans", 1.0), ("meat", "meat_eaten", 1.0), ("methane_scp", "methane_scp_to_humans", 1.0),
+                               ("cellulosic_sugar", "cellulosic_sugar_to_humans", 1.0), ("seaweed", "seaweed_to_humans", float(la.consts["SEAWEED_KCALS"]))):
+                if not la.has(var):
+                    continue
+                val = np.nan_to_num(la.val(var)) * kk
+                want = got[f][: la.N] * conv
+                sc = max(1e-9, float(np.abs(want).max()))
+                d = np.abs(val - want) - 3e-4 * np.abs(want)
+                npin += 1
+                if d.max() > 1e-6 * sc + 1e-9:
+                    m = int(d.argmax())
+                    add([("pinned_consumption_differs_from_handed_minimum", "feed-maximising round, %s month %d: people are held to %.8g billion kcal, the handed minimum is %.8g" % (f, m, val[m], want[m]))], "min_needs_in_model")
+            obs["audited"] += 1
+            obs["handoffs"].append({"what": "min_needs_in_model", "foods_pinned": npin})
         # re-timed meat: compare with the raw round-2 herd meat
         if len(tr.herds) >= 2:
             t2 = ret[1]
